@@ -325,6 +325,9 @@ spec fn nothing_above_is_a_link(h: LinkHistory, a: Seq<u8>) -> bool {
 }
 
 // the path `restore` derives from an apath: destination.join(&apath[1..])
+// (opaque: revealed only where the equation with `Path::join` is needed, which keeps the search small when an edit
+// breaks that equation)
+#[verifier::opaque]
 spec fn dest_path(a: Seq<u8>) -> Seq<u8> { path_join(restore_dest(), a.skip(1)) }
 
 // The guard of `restore` decides the property: the links attempted so far are all remembered in the executable
@@ -370,6 +373,7 @@ proof fn lemma_dest_path_shape(a: Seq<u8>)
         dest_path(a) == dd + a.skip(1)
     }),
 {
+    reveal(dest_path);
     let d = restore_dest();
     let r = a.skip(1);
     if a.len() > 1 { lemma_valid_second_byte(a); }
@@ -379,7 +383,7 @@ proof fn lemma_dest_path_shape(a: Seq<u8>)
 }
 
 proof fn lemma_apath_above_is_path_above(p: Seq<u8>, a: Seq<u8>)
-    requires valid_bytes(p), valid_bytes(a), p.len() > 1,
+    requires valid_bytes(p), valid_bytes(a),
     ensures apath_above(p, a) <==> path_above(dest_path(p), dest_path(a)),
 {
     let d = restore_dest();
@@ -395,7 +399,7 @@ proof fn lemma_apath_above_is_path_above(p: Seq<u8>, a: Seq<u8>)
             assert(qq.take(n) =~= pp);
         }
         if qq.take(n) == pp {
-            assert forall|k: int| 0 <= k < p.len() implies a.take(p.len() as int)[k] == p[k] by {
+            assert forall|k: int| 0 <= k < p.len() implies a.take(p.len() as int)[k] == #[trigger] p[k] by {
                 if k >= 1 {
                     assert(qq.take(n)[dd.len() + k - 1] == pp[dd.len() + k - 1]);
                 }
